@@ -14,38 +14,41 @@ FD = "sender::filedesc::FileDesc"
 
 def _masked_last(sl, fl, e, bb, depth):
     """None when the value is width-masked as its last operation, else a description of the offending form"""
-    from ..cfg import strip_ref
     while e[0] in ("ref", "deref") or (e[0] == "cast" and e[3] == "IntToInt" and e[1] == "u128"):
         e = e[1] if e[0] != "cast" else e[2]
     if e[0] == "call" and e[1].endswith("::to_max_length"):
         return None
     if e[0] == "const" and e[2] == 1:
         return None
+    if e[0] == "bin" and e[1].startswith("Add") and show(e[3]) == "1":
+        # `y + 1` where y was just tested to be 0 (the FDT's TOI): the value is 1
+        y = show(e[2])
+        zero = any(a_[0] == "eq" and t_ and y in (show(a_[1]), show(a_[2])) and
+                   any(show(z_) in ("0", "lct::TOI_FDT") or (z_[0] == "const" and z_[2] == 0) for z_ in (a_[1], a_[2])) for (a_, t_) in fl.facts_at(bb))
+        return None if zero else "`%s` not under a test `%s == 0`" % (show(e, 40), y)
     if e[0] in ("var", "tmp") and not e[2] and depth > 0:
-        name = e[1]
-        defs = [(ex_, b_) for (pj_, ex_, b_) in sl.var_defs().get(name, []) if pj_ == ""]
+        body = sl.body
+        if e[0] == "var":
+            defs = [(ex_, b_) for (pj_, ex_, b_) in sl.var_defs().get(e[1], []) if pj_ == ""]
+        else:
+            defs = []
+            for (b_, idx_, kind_) in body.defs().get(e[1], []):
+                if body.blocks[b_].cleanup or body.blocks[b_].cloned_from is not None or kind_ not in ("whole", "call"):
+                    continue
+                defs.append((sl.x.call_expr(b_, body.blocks[b_].term, sl.x.depth) if idx_ == "term" else sl.x.rvalue(body.blocks[b_].stmts[idx_].rv, sl.x.depth), b_))
         if not defs:
             return "`%s`, whose origin is unknown" % show(e, 40)
         dbs = set(b_ for _e, b_ in defs)
-        bad = None
         for (ex_, b_) in defs:
             # does this definition reach the use without being overwritten by another one?
-            if b_ != bb:
+            if b_ != bb and len(dbs) > 1:
                 ok_, _w = fl.must_pass(b_, [bb], lambda n, b_=b_: n[0] == "b" and n[1] in dbs and n[1] != b_ and n[1] != bb)
                 if ok_:
                     continue
-            if ex_[0] == "bin" and ex_[1].startswith("Add") and show(ex_[3]) == "1" and show(ex_[2]) == name:
-                zero = any(a_[0] == "eq" and t_ and {show(a_[1]), show(a_[2])} & {name} and ({show(a_[1]), show(a_[2])} & {"0", "lct::TOI_FDT"} or
-                           any(z_[0] == "const" and z_[2] == 0 for z_ in (a_[1], a_[2]))) for (a_, t_) in fl.facts_at(b_))
-                if zero:
-                    continue
-                bad = "`%s` not under a test `%s == 0`" % (show(ex_, 40), name)
-                break
             w_ = _masked_last(sl, fl, ex_, b_, depth - 1)
             if w_ is not None:
-                bad = w_
-                break
-        return bad
+                return w_
+        return None
     return "`%s`" % show(e, 80)
 
 
@@ -99,7 +102,7 @@ def run(ctx):
         fl_ = Flow(a["func"].body)
         v = a["value"]
         key = "%s cursor = %s" % (a["func"].path.split("::")[-1], show(v, 50))
-        why = _masked_last(sl, fl_, v, a["bb"], 3)
+        why = _masked_last(sl, fl_, v, a["bb"], 5)
         if why is None:
             r1.ok(key, "to_max_length is the last operation applied (or the constant 1 / +1 of a masked 0)", loc(a["sp"]))
         else:
